@@ -66,7 +66,15 @@ type Inner struct {
 	N int ` + "`json:\",omitempty\"`" + `
 }
 
+// an unexported struct holding a union, reached only as the element of anonymous slices and maps
+type inner struct {
+	S Shape
+	N int
+}
+
 type Holder struct {
+	Ins    []inner
+	InM    map[string]inner
 	Name   string ` + "`json:\"name\"`" + `
 	Skip   int    ` + "`json:\"-\"`" + `
 	hidden int
@@ -168,6 +176,11 @@ func Check() {
 	default:
 		v.In.S, kindIn = mkShape("in")
 		v.In.N = int(vfInt("in.n", 0, 9))
+		if vfBool("ins") {
+			m, _ := mkShape("ins0")
+			v.Ins = []inner{{S: m, N: 1}, {S: dot{X: 2}}}
+			v.InM = map[string]inner{"k": {S: Sphere{Radius: 1}}}
+		}
 	}
 
 	data, err := json.Marshal(v)
@@ -185,7 +198,7 @@ func Check() {
 	var fields map[string]json.RawMessage
 	err = json.Unmarshal(data, &fields)
 	vfAssert(err == nil, "C02/the-document-is-an-object")
-	want := []string{"name", "shape", "O", "V", "L", "M", "In"}
+	want := []string{"Ins", "InM", "name", "shape", "O", "V", "L", "M", "In"}
 	if v.Last {
 		want = append(want, "last")
 	}
